@@ -101,7 +101,7 @@ def gen_abstract(rng, opts=None):
         elif r < 0.68:
             items.append(("u", rng.choice(["lui", "auipc"]), reg(), rng.choice([0, 1, 5, 2**19 - 1, -(2**19), -1, 2**20 - 1, rng.randrange(-(2**19), 2**20)])))
         elif r < 0.72:
-            items.append(("bare", rng.choice(["ecall", "ecall", "ebreak", "nop", "nop"])))
+            items.append(("bare", rng.choice(["ecall", "ecall", "nop", "nop"] + ([] if opts.get("no_sys") else ["ebreak"]))))
         elif r < 0.76:
             items.append(("mv", reg(), reg()))
         elif r < 0.86:
@@ -119,6 +119,8 @@ def gen_abstract(rng, opts=None):
                 items.append(("loadv", rng.choice(LD_OPS), reg(), d[0], idx))
             else:
                 items.append(("storev", rng.choice(ST_OPS), reg(), d[0], idx, reg()))
+        elif opts.get("no_sys"):
+            items.append(("r", rng.choice(R_OPS), reg(), reg(), reg()))       # CSR/FENCE are not executable (out of scope of C01/C02)
         elif r < 0.96:
             items.append(("csr", rng.choice(["csrrw", "csrrs", "csrrc"]), reg(), rng.choice([0, 0x300, 0xC00, 4095]), reg()))
         elif r < 0.98:
@@ -469,23 +471,21 @@ def asm_case(rng, fault_prob=0.0, opts=None, suite="asm", canonical=False):
     return Case(suite, [f"asm {hx(text)}"], None, meta)
 
 
-HELP_EXAMPLE = """.data
-    empty_array: .zero 64 # reserves space for 64 words (256 bytes)
-    # The following two declarations of 'my_var1' are equivalent,
-    # since zero padding is used to ensure word alignment of new variables/arrays.
-    my_var1: .byte -128
-    # my_var1: .byte -128, 0, 0, 0
-    my_var2: .half 0x1234, 0b1010, 999
-    my_var3: .word 0x12345678, 0b111
-    text1: .string "Hello, World!" # ASCII byte array
-.text
-    la x1, my_var1 # load address of my_var1 into x1
-    lh x2, my_var2 # load halfword from my_var2 into x2
-    lh x3, my_var2[0] # same effect as above
-    lh x4, my_var2[2] # x4 = 999
-    lw x5, my_var3[1] # x5 = 0b111
-    lb x6, text1[11] # x6 = '!'
-"""
+def _help_example():
+    """The example program of the RISC-V help page, read from /repo's working tree (so the check follows the doc)."""
+    import html, re
+    from pathlib import Path
+    try:
+        src = Path("/repo/webgui/src/components/riscv/RiscvHelp.vue").read_text()
+        m = re.search(r"<pre[^>]*>\s*(\.data\s+empty_array.*?)</pre", src, flags=re.S)
+        if m:
+            return html.unescape(re.sub(r"<[^>]+>", "", m.group(1))) + "\n"
+    except Exception:
+        pass
+    return ""
+
+
+HELP_EXAMPLE = _help_example()
 HELP_EXPECT = {1: DATA + 256, 2: 0x1234, 3: 0x1234, 4: 999, 5: 7, 6: ord("!")}
 
 
